@@ -406,6 +406,17 @@ class C03Case:
         self.pending_may -= clo_must
         missing = must - ran
         spurious = ran - may
+        # steps that the two known findings keep dirty for ever (link-mode
+        # copies with extra_deps; under Make, whatever names an alias as a
+        # dependency) are reported by the null-build oracle, with their
+        # cause; here they are not "spurious" a second time
+        users = {'build/' + n for n in
+                 (self.proj.model or {}).get('alias_users', ())}
+        spurious = {k for k in spurious
+                    if not (g.steps[k]['tool'] == 'ln' and
+                            self.must_edges.get(k)) and
+                    not (self.sim.backend == 'make' and
+                         g.steps[k]['writes'] & users)}
         if missing:
             self.vio('exactness-stale',
                      'after modifying {} the build of {} did not re-run {}'
@@ -754,6 +765,25 @@ def execute(root, proj, cfg, ops, online=None):
     return c
 
 
+SWARM_FEATURES = [
+    'alias', 'alias_as_dep', 'always_outdated', 'build_step', 'chained_step',
+    'command', 'copy_extra_deps', 'copy_file', 'copy_files', 'default',
+    'explicit_header', 'extra_deps', 'gen_header', 'global_options',
+    'install', 'lib_extra_deps', 'man_page', 'nested_submodule',
+    'no_intermediate_dirs', 'object_files', 'pch', 'pkg_config',
+    'pkg_config_explicit', 'static_mode', 'submodule', 'test', 'test_deps',
+    'test_driver', 'test_wrapper', 'versioned', 'whole_archive']
+SWARM_PARENTS = {
+    'chained_step': {'build_step'}, 'gen_header': {'build_step'},
+    'always_outdated': {'build_step'}, 'test_deps': {'build_step', 'test'},
+    'alias_as_dep': {'alias'}, 'test_driver': {'test'},
+    'test_wrapper': {'test'}, 'copy_extra_deps': {'copy_file'},
+    'pkg_config': {'install'}, 'pkg_config_explicit': {'pkg_config',
+                                                       'install'},
+    'nested_submodule': {'submodule'},
+}
+
+
 def run_case(seed, root, params=None):
     params = params or {}
     rng = random.Random(seed)
@@ -761,7 +791,19 @@ def run_case(seed, root, params=None):
     cfg = {'clock_mode': rng.choice(['strict', 'coarse']), 'bufsize': 4096,
            'seed': seed, 'jobs': rng.choice([1, 2, 4, 8])}
     fault_mode = bool(params.get('fault_mode')) and rng.random() < 0.5
-    proj = G.GraphGen(rng, backend).generate()
+    # swarm: half of the cases enable every ingredient with its own small
+    # probability (large, mixed projects), the other half draw a handful of
+    # ingredients and enable only those (small, focused projects - more of
+    # them per second, and conjunctions of two ingredients become likely)
+    allow = None
+    if rng.random() < 0.5:
+        allow = set(rng.sample(SWARM_FEATURES, rng.randint(3, 8)))
+        for feat, parents in SWARM_PARENTS.items():
+            if feat in allow:
+                allow |= parents
+    proj = G.GraphGen(rng, backend, allow=allow).generate()
+    if allow is not None:
+        proj.features.add('swarm_subset')
     ops = []
 
     def online(run, ops):
@@ -772,8 +814,16 @@ def run_case(seed, root, params=None):
             run.op(op)
             return bool(c.violations)
 
-        for op in (['configure'], ['all'], ['complete'], ['membership'],
-                   ['null', []], ['null-everything']):
+        # the membership checks rebuild from an empty build directory several
+        # times: they are the most expensive part and run in part of the
+        # cases only, so that the edit/build histories get more cases
+        prefix = [['configure'], ['all'], ['complete']]
+        if rng.random() < 0.4:
+            prefix.append(['membership'])
+        prefix.append(['null', []])
+        if rng.random() < 0.5:
+            prefix.append(['null-everything'])
+        for op in prefix:
             if do(op):
                 return
         sources = sorted({f for st in g.steps.values() for f in st['reads']
